@@ -27,9 +27,12 @@ line="start $$ $mode|$1|$2|$item"
 n=0
 for a in "$@"; do n=$((n+1)); if [ $n -gt 3 ]; then line="$line|$a"; fi; done
 printf '%s\n' "$line" >> "$log"
+case $mode in delayed) sleep 0.7 ;; esac
 echo "TOK<$1/$2/$item>"
+echo "L2<$1/$2/$item>"
+echo "L3<$1/$2/$item>"
 case $mode in
-  instant) ;;
+  instant|delayed) ;;
   slow) sleep 0.25; echo "done-slow" ;;
   never) echo "partial output"; exec sleep 1000 ;;
   chunks) for i in 1 2 3 4; do echo "chunk $i"; sleep 0.06; done ;;
@@ -122,7 +125,7 @@ func c20Session(t *rapid.T) {
 	for i := range lines {
 		lines[i] = fmt.Sprintf("it%d %s", i, []string{"ab", "b a", "x-y", "a'q", "zz"}[i%5])
 	}
-	mode := rapid.SampledFrom([]string{"instant", "slow", "never", "chunks"}).Draw(t, "mode")
+	mode := rapid.SampledFrom([]string{"instant", "slow", "never", "chunks", "delayed"}).Draw(t, "mode")
 	useFile := rapid.IntRange(0, 3).Draw(t, "useF") == 0
 	plus := rapid.Bool().Draw(t, "plus")
 	dir, err := os.MkdirTemp(workDir, "c20")
@@ -216,8 +219,23 @@ func c20Session(t *rapid.T) {
 						why = fmt.Sprintf("the preview command that ran last got %q, the focused line / query / selection give %q", last.args, expectedArgs(st))
 					} else {
 						tok := fmt.Sprintf("TOK<%s/%s/%s>", nField(st), qField(st), st.Current.Text)
-						if scr := strings.Join(s.Capture(), "\n"); !strings.Contains(scr, tok) && len(tok) < 60 {
-							why = fmt.Sprintf("the preview window does not show the output of the last run (%s)", tok)
+						if scr := strings.Join(s.Capture(), "\n"); len(tok) < 60 {
+							if !strings.Contains(scr, tok) {
+								why = fmt.Sprintf("the preview window does not show the output of the last run (%s)", tok)
+							} else {
+								// every line of the window belongs to the last run
+								body := strings.TrimPrefix(tok, "TOK")
+								for _, tag := range []string{"L2", "L3"} {
+									for _, row := range strings.Split(scr, "\n") {
+										if i := strings.Index(row, tag+"<"); i >= 0 && !strings.Contains(row, tag+body) {
+											why = fmt.Sprintf("line %s of the preview window is not from the last run (%s): %q", tag, tok, strings.TrimSpace(row[i:]))
+										}
+									}
+									if why == "" && !strings.Contains(scr, tag+body) {
+										why = fmt.Sprintf("the preview window does not show line %s of the last run (%s)", tag, tok)
+									}
+								}
+							}
 						}
 					}
 				}
@@ -270,7 +288,7 @@ func c20Session(t *rapid.T) {
 		case "change-preview-window(up,50%)", "change-preview-window(right,60%)":
 			visible = true // a window specification without "hidden" shows the window
 		case "change-preview":
-			curMode = rapid.SampledFrom([]string{"instant", "slow", "never", "chunks"}).Draw(t, "newMode")
+			curMode = rapid.SampledFrom([]string{"instant", "slow", "never", "chunks", "delayed"}).Draw(t, "newMode")
 			wasQ := useQ
 			drawUses()
 			if !startQ && !wasQ && useQ {
